@@ -145,7 +145,7 @@ def oracle_C15(rec):
         dropped = sorted(set(fr) - set(kept))
         uniq = len(np.unique(FF, axis=0)) == len(FF)
         if label in ("pcd", "mnn", "2nn") and uniq and not comp_crowd.coordinate_ties(FF) and len(fr) > M \
-                and nr <= len(fr) - 2 * M and not (label != "pcd" and len(fr) <= M):
+                and nr <= len(fr) - M and not (label != "pcd" and len(fr) <= M):
             _, tie_free, removed = comp_crowd.ref_greedy(FF, label, nr + 1)
             if tie_free and len(removed) == nr:
                 exp = sorted(fr[i] for i in removed)
@@ -177,7 +177,7 @@ def oracle_C15(rec):
                     break
         nr = len(F) - k
         uniq = len(np.unique(F, axis=0)) == len(F)
-        if label in ("pcd", "mnn", "2nn") and uniq and not comp_crowd.coordinate_ties(F) and len(F) > M and 0 < nr <= len(F) - 2 * M:
+        if label in ("pcd", "mnn", "2nn") and uniq and not comp_crowd.coordinate_ties(F) and len(F) > M and 0 < nr <= len(F) - M:
             _, tie_free, removed = comp_crowd.ref_greedy(F, label, nr + 1)
             if tie_free and len(removed) == nr and sorted(removed) != sorted(set(range(len(F))) - set(fb)):
                 bad.append("%s (pure-Python engine): dropped members differ from one-at-a-time pruning" % label)
